@@ -16,7 +16,7 @@ RULE = (
     "Scripted (q, q_A) pairs: q=0, tiny q_A, q=q_A and its floating-point neighbours on both sides (nextafter ladders), the "
     "qtilde branch q>q_A up to the 37-sigma representability boundary, random interior points x {q, qtilde, q0} x {normal, "
     "clipped_normal} x every backend (64-bit), through the calculator methods and through hypotest(return_tail_probs, "
-    "return_expected_set). A case = (q, q_A, statistic, base, backend); non-trivial when q is within 2^10 ulps of q_A, or q>q_A "
+    "return_expected_set); 30% of the cases reuse ONE calculator for 1-3 earlier (q, q_A) pairs first, as a scan over POI values does. A case = (q, q_A, statistic, base, backend); non-trivial when q is within 2^10 ulps of q_A, or q>q_A "
     "(qtilde), or an argument exceeds 8 sigma, or the clip is active (sqrt(q_A)<2)."
 )
 ASSUMPTIONS = [
@@ -107,8 +107,17 @@ def check_pair(case, shard, model):
     try:
         data = [1.0] * (model.config.nmaindata + model.config.nauxdata)
         calc = calculators.AsymptoticCalculator(data, model, test_stat=ts, calc_base_dist=base)
-        script.values = [q, qA]
         mu = 0.0 if ts == "q0" else 1.0
+        # a scan reuses ONE calculator for several POI values: drive the earlier (q, q_A) pairs of the history
+        # through the same object first; the answers for the current pair must not remember them
+        for hq, hqA in case.get("history", []):
+            script.values = [hq, hqA]
+            hstat = calc.teststatistic(mu)
+            hsb, hb = calc.distributions(mu)
+            calc.pvalues(hstat, hsb, hb)
+            calc.expected_pvalues(hsb, hb)
+        script.calls.clear()
+        script.values = [q, qA]
         teststat = calc.teststatistic(mu)
         sb, b = calc.distributions(mu)
         obs = [float(to_np(x)) for x in calc.pvalues(teststat, sb, b)]
@@ -119,7 +128,7 @@ def check_pair(case, shard, model):
         res = pyhf.infer.hypotest(mu, data, model, test_stat=ts, calc_base_dist=base, return_tail_probs=True, return_expected_set=True, return_expected=True)
     finally:
         utils.get_test_stat, calculators.generate_asimov_data = orig_gts, orig_gad
-    ctx = f"q={q!r} qA={qA!r} stat={ts} base={base} backend={backend}"
+    ctx = f"q={q!r} qA={qA!r} stat={ts} base={base} backend={backend}" + (f" after {case['history']} on the same calculator" if case.get("history") else "")
     # which statistic and which Asimov hypothesis were used
     used = [c for c in script.calls if c[0] != "asimov"]
     asim = [c for c in script.calls if c[0] == "asimov"]
@@ -184,6 +193,10 @@ def check_pair(case, shard, model):
     if base == "clipped_normal" and math.sqrt(qA) < 2:
         shard.covered("clip", "active")
     shard.covered("branches", "upper" if (ts == "qtilde" and q > qA) else "sqrt")
+    if case.get("history"):
+        shard.covered("calculator_reuse", f"{min(len(case['history']), 3)} earlier POI value(s) on the same calculator")
+        if base == "clipped_normal":
+            shard.covered("calculator_reuse", "clipped_normal with q_A " + ("smaller" if qA < case["history"][-1][1] else "larger") + " than at the previous POI value")
     shard.maximum("largest_normal_argument", max(abs(args[0]), abs(args[1])))
 
 
@@ -208,6 +221,8 @@ def run_shard(shard):
         ts = rng.choice(["q", "qtilde", "qtilde", "q0"])
         base = rng.choice(["normal", "clipped_normal"])
         case = {"q": q, "qA": qA, "test_stat": ts, "base": base, "backend": p["backend"]}
+        if rng.random() < 0.3:
+            case["history"] = [list(gen_pair(rng)) for _ in range(rng.randint(1, 3))]
         check_pair(case, shard, model)
         if k < 2 and shard.index == 0:
             shard.sample(case)
